@@ -700,3 +700,16 @@ Proof.
   destruct (refused_status_writer _ _ _ _ _ _ _ Hx HF) as [A B].
   destruct (negb e1 && negb (is_internal_action a)); inversion H; subst; cbn; auto.
 Qed.
+
+(* ---------- the same with processNextReq's error path (requeue budget, give-up) ---------- *)
+(* a request processed without an error never reaches handleJobError: the full-strength statement
+   carries over; a step that ends by giving up reports an error and nothing is claimed about its counters
+   (the give-up execution works on the pod view the failed Execute left behind) *)
+Theorem counters_partition_reqb : forall w r w' wr,
+  step_reqb w r [] = (w', false, wr) -> wr = true -> fresh_all w ->
+  (st_cnt (w_st w'), st_term (w_st w')) = tally (w_pods w').
+Proof.
+  intros w r w' wr H Hwr Hfr.
+  destruct (step_reqb_cases _ _ _ _ _ _ H) as [w1 q Hs ->|w1 wr1 w2 e2 wr2 q Hs Hx -> He _]; [|discriminate].
+  exact (counters_partition _ _ _ _ _ Hs Hwr Hfr).
+Qed.
